@@ -581,6 +581,66 @@ func checkC07Row(row c07Row, g *caseGuard) (msg, key string) {
 	return "", ""
 }
 
+// ---------------------------------------------------------------- rows of bars that were clipped by the height
+
+type c07Clip struct {
+	Width int `json:"width"`
+	Bars  int `json:"bars"`
+	Drop  int `json:"drop"` // how many of the bottom bars complete and leave
+	Pre   int `json:"cycles_before"`
+	Decs  int `json:"decorators"`
+}
+
+// checkC07Clip: more bars than the frame height (non-terminal: height = width),
+// rendered for a few cycles, then the bars below leave so that clipped ones
+// become visible; every emitted row must still fit the width.
+func checkC07Clip(c c07Clip, g *caseGuard) (msg, key string) {
+	var out string
+	p := g.run(func() interface{} { return c }, func() {
+		var buf bytes.Buffer
+		ch := make(chan interface{})
+		pr := mpb.New(mpb.WithOutput(&buf), mpb.WithWidth(c.Width), mpb.WithManualRefresh(ch))
+		refresh := func() {
+			n0 := hk.counts[hpRenderEnd].Load()
+			ch <- time.Now()
+			waitCount(hpRenderEnd, n0+1, 5*time.Second)
+		}
+		bars := make([]*mpb.Bar, c.Bars)
+		for i := range bars {
+			var ds []decor.Decorator
+			for k := 0; k < c.Decs; k++ {
+				ds = append(ds, decor.Name(fmt.Sprintf("b%d", i)))
+			}
+			bars[i] = pr.AddBar(10, mpb.BarRemoveOnComplete(), mpb.PrependDecorators(ds...))
+		}
+		for k := 0; k < c.Pre; k++ {
+			refresh()
+		}
+		for i := c.Bars - 1; i >= 0 && i >= c.Bars-c.Drop; i-- {
+			bars[i].SetCurrent(10)
+		}
+		for k := 0; k < 4; k++ {
+			refresh()
+		}
+		for _, b := range bars {
+			b.Abort(true)
+		}
+		pr.Wait()
+		out = buf.String()
+	})
+	if p != nil {
+		return fmt.Sprintf("panic: %v", p), "clip-panic"
+	}
+	for _, frame := range cuuRe.Split(out, -1) {
+		for _, line := range strings.Split(frame, "\n") {
+			if w := vterm.StringWidth(stripSGR(line)); w > c.Width {
+				return fmt.Sprintf("a row of a bar that had been clipped by the frame height is %d cells wide, the width is %d: %q", w, c.Width, line), "clip-row-overflow"
+			}
+		}
+	}
+	return "", ""
+}
+
 // ---------------------------------------------------------------- runner
 
 func runC07(job common.Job, em *emitter) {
@@ -615,7 +675,7 @@ func runC07(job common.Job, em *emitter) {
 			continue
 		}
 		rng := common.NewRng(common.H(job.Seed, "C07", job.Part, idx))
-		n := map[string]int{"fill": 4000, "grid": 41 * 60, "spin": 2000, "decor": 3000, "row": 250}[job.Part]
+		n := map[string]int{"fill": 4000, "grid": 41 * 60, "spin": 2000, "decor": 3000, "row": 250, "clip": 40}[job.Part]
 		for k := 0; k < n; k++ {
 			c07One(acc, g, job.Part, nil, rng, k)
 		}
@@ -660,6 +720,22 @@ func c07One(acc *chunkAcc, g *caseGuard, part string, raw []byte, rng *common.Rn
 		acc.sigs.add(d)
 		if msg == "" {
 			acc.sample(map[string]interface{}{"case": d, "observed": "reported width equals display width of the returned text"})
+		}
+	case "clip":
+		var c c07Clip
+		if raw != nil {
+			mustUnmarshal(raw, &c)
+		} else {
+			c = c07Clip{Width: rng.Range(6, 24), Pre: rng.Range(1, 6), Decs: rng.Intn(2)}
+			c.Bars = c.Width + rng.Range(1, 8)
+			c.Drop = rng.Range(1, c.Bars)
+		}
+		cs = c
+		msg, key = checkC07Clip(c, g)
+		acc.res.NonTrivial++
+		acc.sigs.add(c)
+		if msg == "" {
+			acc.sample(map[string]interface{}{"case": c, "observed": "every row fits the width, also the rows of bars that were clipped by the height before"})
 		}
 	case "row":
 		var r c07Row
